@@ -114,6 +114,9 @@ def run(c):
             vals = range(256) if thorough else list(range(32)) + [0x2E, 0x7E, 0x7F, 0x80, 0xC0, 0xFE, 0xFF]
             for v in vals:
                 if v != one[off]: add("plain", b0 + one[:off] + [v] + one[off + 1:])
+                if len(one) > off + 1 and (thorough or v < 32):    # the same with nothing but zeros / ones behind the first octet
+                    add("plain", b0 + one[:off] + [v] + [0] * (len(one) - off - 1))
+                    add("plain", b0 + one[:off] + [v] + [0xFF] * (len(one) - off - 1))
             if sl["lsz"] > 0 and sl["data"] == "buf" and sl["max"] >= 24:
                 for d in DICT:
                     n = min(sl["max"], 120); body = list((d * (n // len(d) + 1))[:n])
@@ -172,6 +175,28 @@ def run(c):
                     if hv is not None: o2[hdrn] = (o2[hdrn] & 0xF0) | hv
                     add("plain", o2 + [b for e in rest for b in e])
                     add("plain", o2)
+    # two optional elements of DIFFERENT lengths together, contents constant (all zero: every bit a subset of every other; all
+    # ones): a decoder that relates two elements of one message (compares bitmaps, checks one against the other) walks one
+    # with the other's length
+    for m, (b0, byiei, shortest) in sorted(fulls.items()):
+        slot = {}
+        for sl in TBL[m]["slots"]:
+            if not sl["mand"]: slot.setdefault(sl["iei"], sl)
+        var = []
+        for iei, es in sorted(byiei.items()):
+            sl = slot.get(iei)
+            if sl is None or sl["half"] or sl["lsz"] == 0: continue
+            lo, hi = min(es, key=len), max(es, key=len)
+            if len(hi) > 40:
+                cand = [e for e in es if len(e) <= 40]
+                hi = max(cand, key=len) if cand else lo
+            off = 1 + sl["lsz"]
+            var.append((lo[:off], len(lo) - off, hi[:off], len(hi) - off))
+        pairs = [(a, b) for a in var for b in var if a is not b]
+        if not thorough and len(pairs) > 60: pairs = rng.sample(pairs, 60)
+        for a, b in pairs:
+            for fa, fb in ((0, 0), (0xFF, 0xFF), (0, 0xFF)):
+                add("plain", b0 + a[2] + [fa] * a[3] + b[0] + [fb] * b[1])
     # one small optional element repeated THOUSANDS of times in one message: work and memory stay linear in the input
     # (k repetitions may cost k times the element; a per-repetition cost that grows with k is quadratic)
     for m, (b0, byiei, shortest) in sorted(fulls.items()):
